@@ -68,7 +68,7 @@ def _build(reads, keys, genome):
 DRIVER_ARGS = ("gene_db", "sam_path", "profile_name", "cn_region", "cn_solution", "genome", "is_simple")
 
 
-def _fast_enough(args, seconds=8.0):
+def _fast_enough(args, seconds=2.0):
     """Screen of a generated input: False when the real driver does not come back within `seconds` (or exhausts the
     interpreter's recursion limit).  With a gap > 0 a poorly fitting sample makes the major stage enumerate thousands
     of near-optimal models one nested call per solution; such inputs are replaced, not checked.
@@ -94,10 +94,12 @@ def _fast_enough(args, seconds=8.0):
         signal.setitimer(signal.ITIMER_REAL, 0)
 
 
-def _screened(make, rng, ctx, tries=6):
+def _screened(make, rng, ctx, tries=8, seconds=2.0):
+    """(the checker counts a case that overruns the remaining budget by 5 s as an error: a case - up to four runs of the
+    driver - has to stay short)"""
     for _ in range(tries):
         args = make(rng, ctx)
-        if _fast_enough(args):
+        if _fast_enough(args, seconds):
             return args
     return args
 
@@ -272,7 +274,7 @@ def _selection_case(rng, ctx):
 
 def gen_aldy_genotype_genotype_multi_gene(rng, ctx):
     fg.restore_stages()
-    return _screened(_multi_gene_case, rng, ctx)
+    return _screened(_multi_gene_case, rng, ctx, seconds=1.0)
 
 
 def _multi_gene_case(rng, ctx):
@@ -324,7 +326,7 @@ def _chr22_neutral(rng, genome, depth):
 
 def gen_aldy_genotype_genotype_dump_replay(rng, ctx):
     fg.restore_stages()
-    return _screened(_dump_replay_case, rng, ctx)
+    return _screened(_dump_replay_case, rng, ctx, seconds=1.5)
 
 
 def _dump_replay_case(rng, ctx):
@@ -370,7 +372,7 @@ def _dump_replay_case(rng, ctx):
 
 def gen_aldy_genotype_genotype_build(rng, ctx):
     fg.restore_stages()
-    return _screened(_build_case, rng, ctx)
+    return _screened(_build_case, rng, ctx, seconds=1.5)
 
 
 def _build_case(rng, ctx):
@@ -457,3 +459,57 @@ def gen_aldy_profile_Profile_load(rng, ctx):
             "written": {"params": written, "cn_region": custom or fg.neutral_region(ctx, genome),
                         "bam": fg.profile_bam(ctx, [key], genome)},
             "scenario": f"written/{key}/{genome}"}
+
+
+# --------------------------------------------------------------------------- C01  genotype#planted
+
+PLANTED_STRUCTURES = {
+    # database -> [(structure, weight)]: 1-4 alleles; "1" after the first two configurations = extra copy of the gene
+    "pta": [(["1", "1"], 8), (["1", "8"], 2), (["1", "7"], 3), (["1", "1", "1"], 3), (["1", "7", "1"], 1),
+            (["1", "1", "1", "1"], 2)],
+    "ptn": [(["1", "1"], 8), (["1", "1", "1"], 3), (["1", "1", "1", "1"], 2)],
+}
+PLANTED_READ_LENGTHS = [25, 25, 50]
+
+
+def gen_aldy_genotype_genotype_planted(rng, ctx):
+    """error-free reads (single end, 25 or 50 bp, clipped at the ends of a copy), every copy tiled at exactly the same
+    depth (20 or 24 per copy), alleles drawn from the catalogue of the generated database; profile = a simulated
+    two-copy *1/*1 sample of the same depth and read length"""
+    fg.restore_stages()
+    args = _planted_case(rng, ctx)
+    for _ in range(6):      # three or more copies with read phasing: the refinement model can take minutes
+        if len(args["planted"]) < 3 or args["params"].get("phase") is False or _fast_enough(args, 2.5):
+            break
+        args = _planted_case(rng, ctx)
+    args["rec"] = fg.StageRecorder().install()
+    return args
+
+
+def _planted_case(rng, ctx):
+    key = rng.choice(["pta", "pta", "ptn"])
+    genome = rng.choice(["hg19", "hg38"])
+    g19 = fg.load_gdb(ctx, key, "hg19")
+    depth = rng.choice([20, 20, 24])
+    rl = rng.choice(PLANTED_READ_LENGTHS)
+    structure = _structure(rng, PLANTED_STRUCTURES[key])
+    plain = sorted(m for a in g19.alleles.values() if a.cn_config == "1" for m in a.minors)
+    fused = sorted(m for a in g19.alleles.values() if a.cn_config == "7" for m in a.minors)
+    copies = []
+    for i, c in enumerate(structure):
+        minor = None if c == "8" else rng.choice(fused) if c == "7" else rng.choice(plain)
+        copies.append((c, minor, depth, "gene") if (i >= 2 and c == "1") else (c, minor, depth))
+    reads = fg.sample_reads(rng, g19, copies, 2 * depth, rl=rl)
+    reads = _build(reads, [key], genome)
+    genome_arg, contigs = _genome_args(rng, genome)
+    params = {}
+    if rng.random() < 0.4:
+        params["phase"] = False
+    if rng.random() < 0.15:
+        params["indelpost"] = False
+    sam_path = _bam("planted", rng.choice(SAMPLE_NAMES), reads, contigs)
+    return {"gene_db": fg.gdb_path(key), "sam_path": sam_path, "profile_name": fg.profile_bam(ctx, [key], genome, depth, rl),
+            "output_file": rng.choice([None, fg.OutFile("out.aldy")]), "cn_region": fg.neutral_region(ctx, genome),
+            "genome": genome_arg, "params": params, "rec": None,
+            "planted": [(c[0], c[1]) for c in copies],
+            "scenario": f"{key}/{genome}/rl{rl}/" + _label(copies)}
